@@ -77,7 +77,7 @@ func c13ClusterOOM(c *fw.Ctx) {
 	r := c.Rand
 	N := 1 + r.Intn(2)
 	tables := []cluster.TableDef{
-		{Name: "t", SQL: "SELECT SUM(v) AS v FROM inbound GROUP BY k, period(1h)", Retention: 48 * time.Hour, PartitionBy: []string{"k"}},
+		{Name: "t", SQL: "SELECT SUM(v) AS v FROM inbound GROUP BY k, period(1h)", Retention: 48 * time.Hour, MaxFlush: 40 * time.Millisecond, PartitionBy: []string{"k"}},
 		// a table with a handful of keys: its scans never reach the 1000-row memory check, so it tells
 		// when the capped followers are registered with the leader again
 		{Name: "small", SQL: "SELECT SUM(v) AS v FROM inbound GROUP BY m, period(1h)", Retention: 48 * time.Hour, PartitionBy: []string{"m"}},
@@ -107,10 +107,11 @@ func c13ClusterOOM(c *fw.Ctx) {
 		}
 	}
 	// convergence: the followers together hold nKeys keys
+	// (disk-only: the web handler queries without the memstore, so everything has to be flushed)
 	count := func() int {
 		total := 0.0
 		for _, f := range cl.AllFollowers() {
-			res := f.Query(ctxBackground(), "SELECT _points FROM t GROUP BY _", true)
+			res := f.Query(ctxBackground(), "SELECT _points FROM t GROUP BY _", false)
 			for i := range res.Rows {
 				total += res.Rows[i].Vals[0]
 			}
@@ -130,6 +131,15 @@ func c13ClusterOOM(c *fw.Ctx) {
 	if truth.Failed() || len(truth.Rows) != nKeys {
 		c.Inconclusive("uncapped cluster returns %d of %d rows (%s)", len(truth.Rows), nKeys, truth.ErrString())
 		return
+	}
+	// the leader's answers served over HTTP with a response size cap: the leader-side consumer stops the
+	// cluster query mid-stream, which must surface as an HTTP error, never as a cached 200
+	httpCut, httpLog := c13HTTPVariants(c, cl.Leaders[0].DB, nKeys, []int{0, 2}, "cluster leader: ")
+	if c.Violated() {
+		return
+	}
+	if httpCut > 0 {
+		c.Obs("cluster_http_truncated", int64(httpCut))
 	}
 	// restart the followers with the cap
 	for _, f := range cl.AllFollowers() {
@@ -174,7 +184,7 @@ func c13ClusterOOM(c *fw.Ctx) {
 			}
 		}
 	}
-	c.Sample(map[string]interface{}{"kind": "cluster-oom", "partitions": N, "keys": nKeys, "log": log})
+	c.Sample(map[string]interface{}{"kind": "cluster-oom", "partitions": N, "keys": nKeys, "log": append(httpLog, log...)})
 }
 
 // c13Cluster: partitions made unavailable (all followers of a partition stopped), or failing mid-scan
@@ -370,43 +380,31 @@ func c13Embedded(c *fw.Ctx) {
 
 // ------------------------------------------------------------------------------------------
 
-func c13HTTP(c *fw.Ctx) {
+// c13HTTPVariants serves zdb (an embedded database or a cluster leader) through the web handler on an httptest
+// server and runs the given fault variants (0 = response size cap, 1 = query timeout forced past inside the scan,
+// 2 = control without fault) through /immediate, /cached/<permalink> and /run.
+func c13HTTPVariants(c *fw.Ctx, zdb *zenodb.DB, nKeys int, variants []int, tag string) (cut int, log []string) {
 	r := c.Rand
-	nKeys := 300 + r.Intn(500)
-	defs := []dbh.TableDef{{Name: "t", SQL: "SELECT SUM(v) AS v FROM inbound GROUP BY k, period(1h)", Retention: 1000 * time.Hour, Stream: "inbound"}}
-	db, err := dbh.Open(c.Dir+"/db", defs, dbh.Opts{VirtualTime: true})
-	if err != nil {
-		c.Inconclusive("open: %v", err)
-		return
-	}
-	defer db.Close()
-	for i := 0; i < nKeys; i++ {
-		db.Insert("inbound", gen.Base.Add(time.Duration(i)*time.Second), map[string]interface{}{"k": fmt.Sprintf("key-%05d", i)}, map[string]interface{}{"v": float64(i + 1)})
-	}
-	db.WaitCaughtUp(quiesceTimeout)
-	db.FlushAll()
-	cut := 0
-	var log []string
-	for variant := 0; variant < 3; variant++ {
-		opts := &web.Opts{CacheDir: fmt.Sprintf("%s/cache%d", c.Dir, variant), QueryTimeout: 30 * time.Second}
+	for _, variant := range variants {
+		opts := &web.Opts{CacheDir: fmt.Sprintf("%s/cache-%s%d", c.Dir, tag, variant), QueryTimeout: 30 * time.Second}
 		var faultDesc string
 		switch variant {
 		case 0:
 			// estimated-size cap: cuts the scan after some rows
 			opts.MaxResponseBytes = 2000 + r.Intn(8000)
-			faultDesc = fmt.Sprintf("MaxResponseBytes=%d", opts.MaxResponseBytes)
+			faultDesc = fmt.Sprintf("%sMaxResponseBytes=%d", tag, opts.MaxResponseBytes)
 		case 1:
 			// query timeout forced past inside the scan
 			opts.QueryTimeout = 300 * time.Millisecond
-			faultDesc = "QueryTimeout=300ms forced past at iterate.beforeScan"
+			faultDesc = tag + "QueryTimeout=300ms forced past at iterate.beforeScan"
 		default:
-			faultDesc = "no fault (control)"
+			faultDesc = tag + "no fault (control)"
 		}
 		router := mux.NewRouter()
-		stopWeb, err := web.Configure(db.DB, router, opts)
+		stopWeb, err := web.Configure(zdb, router, opts)
 		if err != nil {
 			c.Inconclusive("configure: %v", err)
-			return
+			return cut, log
 		}
 		srv := httptest.NewServer(router)
 		client := &http.Client{Timeout: 90 * time.Second}
@@ -473,6 +471,25 @@ func c13HTTP(c *fw.Ctx) {
 		srv.Close()
 		stopWeb()
 	}
+	return cut, log
+}
+
+func c13HTTP(c *fw.Ctx) {
+	r := c.Rand
+	nKeys := 300 + r.Intn(500)
+	defs := []dbh.TableDef{{Name: "t", SQL: "SELECT SUM(v) AS v FROM inbound GROUP BY k, period(1h)", Retention: 1000 * time.Hour, Stream: "inbound"}}
+	db, err := dbh.Open(c.Dir+"/db", defs, dbh.Opts{VirtualTime: true})
+	if err != nil {
+		c.Inconclusive("open: %v", err)
+		return
+	}
+	defer db.Close()
+	for i := 0; i < nKeys; i++ {
+		db.Insert("inbound", gen.Base.Add(time.Duration(i)*time.Second), map[string]interface{}{"k": fmt.Sprintf("key-%05d", i)}, map[string]interface{}{"v": float64(i + 1)})
+	}
+	db.WaitCaughtUp(quiesceTimeout)
+	db.FlushAll()
+	cut, log := c13HTTPVariants(c, db.DB, nKeys, []int{0, 1, 2}, "")
 	c.Nontrivial(cut > 0)
 	c.Sample(map[string]interface{}{"kind": "http", "keys": nKeys, "log": log})
 }
